@@ -1,26 +1,31 @@
 (* C28 — Function IDs are unique and released when programs finish: case type,
    correspondence predicate and property predicate.  Depends on the model only. *)
-From Murex Require Export Base.Outcome Base.Bytes Base.CheckLib Model.RunMode Model.Fid.
+From Murex Require Export Base.Outcome Base.Bytes Base.CheckLib Model.RunMode Model.Fid Model.FidTree.
 
 (* One batch of programs run concurrently (one goroutine each) under a seeded
    perturbation of the schedulers' yield points.
    k_progs  : the programs of the batch that are chains of the C04/C05 grammar:
               run mode, program, registrations made by each process' command
               while it runs (function fork + body), registrations of the wrapper;
-   k_exact  : every program of the batch is such a chain (so the number of
+   k_trees  : the programs of the batch that are nested structures (if / foreach /
+              sub-shell / function / try inside normal blocks) given as their fork
+              tree (Model/FidTree.v), the root being the harness' own function fork;
+   k_exact  : every program of the batch is a chain or a tree (so the number of
               registrations is predicted);
    k_issued : ids issued during the batch (difference of the FID counter);
    k_leaked : processes registered by the batch still in GlobalFIDs.ListAll()
               after quiescence (polled up to 3 s);
    k_dup    : an id was seen attached to two different processes (or one process
               under two ids) while sampling the table during the batch. *)
-Record case := { k_progs : list (runmode * program * list N * N); k_exact : bool;
+Record case := { k_progs : list (runmode * program * list N * N); k_trees : list ftree;
+                 k_exact : bool;
                  k_issued : N; k_leaked : N; k_dup : bool }.
 
 Definition predicted (c : case) : N :=
   fold_right (fun (x : runmode * program * list N * N) acc =>
                 let '(m, prog, cost, base) := x in (base + predict_issued m prog cost + acc)%N)
-             0%N (k_progs c).
+             0%N (k_progs c)
+  + fold_right (fun t acc => (N.of_nat (tree_count t) + acc)%N) 0%N (k_trees c).
 
 (* correspondence: the model says nothing leaks, ids are never shared, and - for
    chains - exactly which processes get registered (one per compiled process,
